@@ -14,7 +14,7 @@ def dfltNode (d : Option Nat) (k : Nat) : Nat :=
   | some x => x
   | none => k
 
-theorem tr_switch (fuel : Nat) (env : Src.Env) (he : PlainEnv env) (hdr : Ev) (CS : Src.Cases) (k : Nat) (b : Src.B) :
+theorem tr_switch (fuel : Nat) (env : Src.Env) (he : EnvOK cx env) (hdr : Ev) (CS : Src.Cases) (k : Nat) (b : Src.B) :
     Src.tr fuel [] env (.switch hdr CS) k b =
       ((Src.trCases fuel [] (brkEnv env k) CS k (tbl b).length (b.push (.halt (evInvalid "switch default"))).1).1.set (tbl b).length
         (.silent (dfltNode (Src.trCases fuel [] (brkEnv env k) CS k (tbl b).length (b.push (.halt (evInvalid "switch default"))).1).2.2.2 k))).push
@@ -35,7 +35,7 @@ theorem switchHdrOp_shape {hdr : Hdr} {s : St} {o : Op} {s' : St} (h : switchHdr
   · obtain ⟨rfl, rfl⟩ := genOp_spec h
     exact ⟨sameStk_tickedOp _ _, _, rfl⟩
 
-theorem switch_pm (cx : Cx) (fuel : Nat) (env : Src.Env) (he : PlainEnv env) (hdr : Hdr) (cs : Cases)
+theorem switch_pm (cx : Cx) (fuel : Nat) (env : Src.Env) (he : EnvOK cx env) (hdr : Hdr) (cs : Cases)
     (run : Nat → List BP → SwSt → M SwSt) (hn : nameOK hdr.name = true) (hne : Beh.endsFlow hdr.name = false) (hcs : cs ≠ .nil)
     (hdef : countDefaults cs ≤ 1) (hrun : CasesC cx fuel hdr.name cs run) :
     PM cx (switchOf hdr cs run) (fun k b => Src.tr fuel [] env (.switch (hdrEv hdr) (toSrcCases hdr.name cs)) k b) env := by
@@ -87,7 +87,7 @@ theorem switch_pm (cx : Cx) (fuel : Nat) (env : Src.Env) (he : PlainEnv env) (hd
   have nnD' : NoNone D := nnD nn0
   generalize hEL : (s.tickedLbl 1).lbc + 1 = eL at *
   have htr := fun k b => tr_switch fuel env he (hdrEv hdr) (toSrcCases hdr.name (.cons d0 n0 ps0 b0 r0)) k b
-  have hgrow : ∀ k b, Grow b (Src.tr fuel [] env (.switch (hdrEv hdr) (toSrcCases hdr.name (.cons d0 n0 ps0 b0 r0))) k b).1 := by
+  have hgrow : ∀ k b, Grow cx.Z b (Src.tr fuel [] env (.switch (hdrEv hdr) (toSrcCases hdr.name (.cons d0 n0 ps0 b0 r0))) k b).1 := by
     intro k b
     rw [htr]
     exact (((Grow.push b _).trans (hS.grow k _ _)).set_ge (Nat.le_refl _) _).trans (Grow.push _ _)
@@ -116,11 +116,11 @@ theorem switch_pm (cx : Cx) (fuel : Nat) (env : Src.Env) (he : PlainEnv env) (hd
   -- the node table
   obtain ⟨a1, a2⟩ := tbl_push (T.1.set (tbl b).length (.silent (dfltNode T.2.2.2 k))) (.emit (hdrEv hdr) T.2.2.1)
   have hlen3 : (tbl (T.1.set (tbl b).length (.silent (dfltNode T.2.2.2 k)))).length = (tbl T.1).length := by rw [tbl_set]; simp
-  have g3 : Grow b (T.1.set (tbl b).length (.silent (dfltNode T.2.2.2 k))) := ((Grow.push b _).trans gT).set_ge (Nat.le_refl _) _
+  have g3 : Grow cx.Z b (T.1.set (tbl b).length (.silent (dfltNode T.2.2.2 k))) := ((Grow.push b _).trans gT).set_ge (Nat.le_refl _) _
   have hNe : cx.N[(tbl T.1).length]? = some (.emit (hdrEv hdr) T.2.2.1) := by
-    rw [hag _ (by rw [← hlen3]; exact g3.len) (by rw [a1]; simp [hlen3]), a1, ← hlen3]
+    rw [hag.2 _ (by rw [← hlen3]; exact g3.len) (by rw [a1]; simp [hlen3]), a1, ← hlen3]
     simp
-  have ag3 : AgreeOn cx.N b (T.1.set (tbl b).length (.silent (dfltNode T.2.2.2 k))) := hag.sub_grow (Grow.refl b) (Grow.push _ _)
+  have ag3 : AgreeOn cx.N cx.Z b (T.1.set (tbl b).length (.silent (dfltNode T.2.2.2 k))) := hag.sub_grow (Grow.refl b) (Grow.push _ _)
   obtain ⟨hNnt, agT⟩ := agree_set ag3 gT
   rw [a2, hlen3]
   -- positions
